@@ -1341,6 +1341,21 @@ def pow_array_exponent(I, base, e):
     return out[0] if n == 1 and bs.is_one() else nf.concat(out, p)
 
 
+def l_dynamic_update_slice_in_dim(I, args, kw):
+    """lax.dynamic_update_slice_in_dim(operand, update, start, axis): writes ONE contiguous block.  Modelled only for the leading axis with
+    start = idx[0] of a generic index list and as many update rows as the list has entries: the block start .. start+n-1 is the scatter at the
+    contiguous run beginning at idx[0] - a different index list from idx itself, which is arbitrary (equal only for ascending contiguous idx)."""
+    it = _I()
+    operand, update, start = args[0], args[1], args[2]
+    axis = kw.get("axis", args[3] if len(args) > 3 else None)
+    if not isinstance(start, it.IdxElem) or _int(axis) != 0 or not isinstance(operand, Val) or not isinstance(update, Val):
+        raise Undecided("dynamic_update_slice_in_dim outside the modelled form (leading axis, start = idx[k] of a generic index list)")
+    if not update.axes or update.shape[0] != start.idx.size:
+        raise Undecided("dynamic_update_slice_in_dim: update block not of the length of the index list")
+    run = it.IdxArr(f"run({start.idx.name}[{start.k}])", start.idx.size, kind="generic")
+    return _scatter(I, operand, run, update)
+
+
 def not_modelled(name):
     def f(I, args, kw):
         raise Undecided(f"{name} is not modelled")
@@ -1455,7 +1470,7 @@ EXT = {
     "jax.lax.while_loop": not_modelled("lax.while_loop"), "jax.jit": lambda I, a, k: a[0],
     "jax.scipy.stats.norm.pdf": s_norm("pdf"), "jax.scipy.stats.norm.cdf": s_norm("cdf"),
     "jax.scipy.stats.norm.logcdf": s_norm("logcdf"),
-    "jax.scipy.special.gammaln": _elementwise("GammaLn"),
+    "jax.scipy.special.gammaln": _elementwise("GammaLn"), "jax.lax.dynamic_update_slice_in_dim": l_dynamic_update_slice_in_dim,
 }
 
 
@@ -1665,6 +1680,8 @@ def index(I, v, key):
             w = copy.copy(v)
             w.mesh = (kinds.index("slice"), len(kinds))
             return w
+        if v.kind == "generic" and v.mesh is None and len(key) == 1 and key[0][0] == "int":
+            return it.IdxElem(v, key[0][1])
         v = idx_to_val(v)
     nd = len(v.axes)
     # expand ellipsis
